@@ -8,6 +8,14 @@ PROPS["C15"] = dict(
          "destinations whose len == cap and with windows big[8:8+d] of a larger array (len < cap: canary data in front, "
          "spare capacity behind), where additionally no byte outside dst[:n] (outside dst[:len(dst)] when the call fails) may "
          "change (sizes > 2048: windows of the lengths 0..64, size-64..size+1 and every (size/64)-th in between); "
+         "guard-page placement of the destination: the same calls into a destination of d bytes (len == cap) that ENDS at the "
+         "last byte in front of an inaccessible page and into one that BEGINS at the first byte behind one (one anonymous "
+         "mapping per process, 16 MiB between two PROT_NONE pages, linux/amd64+arm64; d = 0..size+1, sizes > 64: 0..32 and "
+         "size-16..size+1; items above 16 MiB: class guard_pages_item_too_big_heap_only), run with debug.SetPanicOnFault: the "
+         "callee may write dst[n:len(dst)], an access outside dst[:len(dst)] is a memory fault = signature "
+         "out-of-bounds-access:Marshal even if no byte ends up different; results obey the same law as on the heap (counted in "
+         "marshal_calls_into_destinations_next_to_an_inaccessible_page, class guard_pages_around_marshal_destination; without "
+         "the arena: class guard_pages_unavailable and an inconclusive note); "
          "ObjectsWriter into a bytes.Buffer gives the same bytes and count, and so it does into the other sink kinds: a sink that "
          "is an io.Writer and nothing else, and a *bufio.Writer of 16 bytes over such a sink that already holds f bytes written "
          "by the harness, for EVERY f = 0..16 (all amounts of free space, none included; values above 64 KiB: f = 0, 1, 15, 16) - "
